@@ -58,3 +58,12 @@ UNITS.append(Unit('backmp11.forward_transition.execute', ['C07', 'C13', 'C18'], 
         dict(name='auto-id', pat='const auto state_id =', rep='const int state_id =', min=1, max=1),
         dict(name='member-call-on-substate', pat='sm -> get_state ( Submachine ) . process_event_internal (', rep='sub_process_event_internal ( __CPROVER_uninterpreted_get_state ( Submachine ) ,', min=1, max=1)]),
     replay=['sel']))
+UNITS.append(Unit('backmp11.favor_compile_time.state_dispatch_table.dispatch', PROPS, 'backmp11',
+    Part(CT, ['class state_dispatch_table'], 'process_result dispatch ( StateMachine & sm , uint8_t region_id , const any_event & event ) const'),
+    'process_result state_dispatch(const sdt_t* self, fsm_t* sm, uint8_t region_id, event_t event)', 'select_mp11.spec.h',
+    xform=back_xform([], refparams=(), members=['m_call_process_event', 'm_transition_chains'], enums=ENUMS, drop=DROP2, rewrites=[
+        dict(name='fnptr-call', pat='self -> m_call_process_event ( sm , event )', rep='call_process_event_fp ( self , sm , event )', min=0, max=1),
+        dict(name='CONT-find', pat='auto it = self -> m_transition_chains . find ( event . type ( ) ) ;', rep='', min=1, max=1),
+        dict(name='CONT-found', pat='it != self -> m_transition_chains . end ( )', rep='self -> has_chain', min=1, max=1),
+        dict(name='CONT-call', pat='( it -> second . execute ) ( sm ,', rep='chain_execute_acc ( self , sm ,', min=0, max=1)]),
+    must_contain=[HTD], replay=['sel']))
